@@ -21,8 +21,6 @@ import os
 import signal
 import time
 import warnings
-from concurrent.futures import ProcessPoolExecutor
-from concurrent.futures.process import BrokenProcessPool
 
 from . import common as C
 
@@ -54,9 +52,9 @@ TIERS = {
         },
         "thorough": {
             "design": [{"NRxns": 3, "BPal": "q6", "OPal": "unit", "Canon": True, "Thm": {"dual", "range"}}],
-            "gens": [("family2x2", {"NRxns": 2, "BPal": "t8", "OPal": "rich"}, 2),
-                     ("family2x3", {"NRxns": 3, "BPal": "q6", "OPal": "unit", "Canon": True}, 2),
-                     ("walk", {"Mode": "walk", "NMets": 4, "NRxns": 6, "BPal": "i9", "NWalks": 20000, "Depth": 10}, 2)],
+            "gens": [("family2x2", {"NRxns": 2, "BPal": "t8", "OPal": "rich"}, 1),
+                     ("family2x3", {"NRxns": 3, "BPal": "q6", "OPal": "unit", "Canon": True}, 1),
+                     ("walk", {"Mode": "walk", "NMets": 4, "NRxns": 6, "BPal": "i9", "NWalks": 8000, "Depth": 10}, 2)],
         },
     },
     "C05": {
@@ -68,12 +66,12 @@ TIERS = {
                      ("walk", {"Mode": "walk", "NMets": 3, "NRxns": 6, "BPal": "f7", "NWalks": 300, "Depth": 6}, 2)],
         },
         "thorough": {
-            "design": [{"Mode": "proto", "NRxns": 3, "BPal": "f7", "OPal": "unit", "Canon": True},
+            "design": [{"Mode": "proto", "NRxns": 3, "BPal": "f4", "OPal": "unit", "Canon": True},
                        {"NRxns": 3, "BPal": "f7", "OPal": "unit", "Canon": True, "Thm": {"range", "loop"}}],
-            "gens": [("family2x3", {"NRxns": 3, "BPal": "f7", "OPal": "unit", "Canon": True}, 2),
-                     ("cycle2", {"Topo": "cyc2", "NMets": 2, "NRxns": 4, "BPal": "f7", "OPal": "unit"}, 2),
+            "gens": [("family2x3", {"NRxns": 3, "BPal": "f4", "OPal": "unit", "Canon": True}, 2),
+                     ("cycle2", {"Topo": "cyc2", "NMets": 2, "NRxns": 4, "BPal": "f7", "OPal": "unit"}, 1),
                      ("cycle3", {"Topo": "cyc3", "NMets": 3, "NRxns": 5, "BPal": "f4", "OPal": "unit"}, 1),
-                     ("walk", {"Mode": "walk", "NMets": 4, "NRxns": 6, "BPal": "i9", "NWalks": 6000, "Depth": 8}, 2)],
+                     ("walk", {"Mode": "walk", "NMets": 4, "NRxns": 6, "BPal": "i9", "NWalks": 5000, "Depth": 8}, 2)],
         },
     },
     "C19": {
@@ -88,7 +86,7 @@ TIERS = {
             "gens": [("family2x3", {"NRxns": 3, "BPal": "z5", "OPal": "unit", "Canon": True}, 2),
                      ("cycle2", {"Topo": "cyc2", "NMets": 2, "NRxns": 4, "BPal": "z5", "OPal": "unit"}, 2),
                      ("cycle3", {"Topo": "cyc3", "NMets": 3, "NRxns": 5, "BPal": "z3", "OPal": "first"}, 2),
-                     ("walk", {"Mode": "walk", "NMets": 4, "NRxns": 7, "BPal": "z5", "NWalks": 8000, "Depth": 8}, 2)],
+                     ("walk", {"Mode": "walk", "NMets": 4, "NRxns": 7, "BPal": "z5", "NWalks": 6000, "Depth": 8}, 2)],
         },
     },
     "C17": {
@@ -415,44 +413,85 @@ def _alarm(signum, frame):
     raise _Timeout()
 
 
-def _drive_chunk(items):
+def _drive_slice(items, path):
+    """Worker: drive the items one after the other; every trace is appended to `path` as one JSON line,
+    preceded by a marker line naming the behaviour in flight (so that the parent knows which one was
+    running if native code kills this process)."""
     warnings.simplefilter("ignore")
     import logging
     logging.disable(logging.CRITICAL)
-    out = []
     signal.signal(signal.SIGALRM, _alarm)
-    for tid, pal, beh, prop in items:
-        signal.alarm(60)
-        try:
-            out.append(Driver(pal, beh["M0"]).run(beh, tid, prop))
-        except _Timeout:
-            raise C.Machinery("driver timed out on behaviour %s" % json.dumps(beh)[:400])
-        finally:
-            signal.alarm(0)
-    return out
+    with open(path, "a") as fh:
+        for tid, pal, beh, prop in items:
+            fh.write(json.dumps({"start": tid}) + "\n")
+            fh.flush()
+            signal.alarm(120)
+            try:
+                tr = Driver(pal, beh["M0"]).run(beh, tid, prop)
+            except _Timeout:
+                fh.write(json.dumps({"timeout": tid}) + "\n")
+                fh.flush()
+                os._exit(3)
+            finally:
+                signal.alarm(0)
+            fh.write(json.dumps(tr) + "\n")
+            fh.flush()
+    os._exit(0)
 
 
-def drive_all(items, nproc=None):
-    """items: (tid, palette, behaviour).  Forked workers; a worker killed by native code is isolated:
-    its chunk is re-run one behaviour per process and the crashing behaviour is reported."""
-    nproc = nproc or C.NCPU
-    chunks = list(C.chunks(items, max(20, len(items) // (nproc * 4) + 1)))
+def _drive_chunk(items):
+    """In-process variant (profiling)."""
+    warnings.simplefilter("ignore")
+    return [Driver(pal, beh["M0"]).run(beh, tid, prop) for tid, pal, beh, prop in items]
+
+
+def drive_all(items, nproc=None, wd=None):
+    """items: (tid, palette, behaviour, prop).  Forked workers, one static slice of the items each.  A worker
+    killed by native code (GLPK aborts the process on some inputs) or stuck loses only the behaviour in
+    flight: that one is reported as crashed and a fresh worker resumes the slice after it."""
+    nproc = max(1, min(nproc or C.NCPU, len(items)))
+    wd = wd or C.workdir("flux_drive_%d" % os.getpid())
+    ctx = mp.get_context("fork")
+    slices = [items[w::nproc] for w in range(nproc)]
     traces, crashed = [], []
-    redo = []
-    with ProcessPoolExecutor(nproc, mp_context=mp.get_context("fork")) as ex:
-        futs = [(ex.submit(_drive_chunk, ch), ch) for ch in chunks]
-        for f, ch in futs:
-            try:
-                traces.extend(f.result())
-            except BrokenProcessPool:
-                redo.append(ch)
-    for ch in redo:
-        for it in ch:
-            try:
-                with ProcessPoolExecutor(1, mp_context=mp.get_context("fork")) as ex:
-                    traces.extend(ex.submit(_drive_chunk, [it]).result())
-            except BrokenProcessPool:
-                crashed.append(it)
+    gen = 0
+    while any(slices):
+        gen += 1
+        procs = []
+        for w, sl in enumerate(slices):
+            if not sl:
+                continue
+            path = os.path.join(wd, "drive_%d_%d_%d.jsonl" % (os.getpid(), gen, w))
+            p = ctx.Process(target=_drive_slice, args=(sl, path))
+            p.start()
+            procs.append((w, p, path))
+        for w, p, path in procs:
+            p.join()
+            done, inflight = set(), None
+            if os.path.exists(path):
+                with open(path) as fh:
+                    for line in fh:
+                        try:
+                            rec = json.loads(line)
+                        except ValueError:      # a line cut short by the abort
+                            continue
+                        if "start" in rec:
+                            inflight = rec["start"]
+                        elif "timeout" in rec:
+                            pass
+                        else:
+                            traces.append(rec)
+                            done.add(rec["tid"])
+                            inflight = None
+                os.unlink(path)
+            rest = [it for it in slices[w] if it[0] not in done]
+            if p.exitcode == 0 and not rest:
+                slices[w] = []
+                continue
+            if inflight is None and rest:
+                inflight = rest[0][0]        # died before announcing anything
+            crashed.extend([(it, p.exitcode) for it in rest if it[0] == inflight])
+            slices[w] = [it for it in rest if it[0] != inflight]
     traces.sort(key=lambda t: t["tid"])
     return traces, crashed
 
@@ -552,11 +591,14 @@ def run(prop, tier, replay=None):
                 items.append((tid, pal, beh, prop))
                 meta[tid] = (pal["name"], bi)
         t0 = time.time()
-        traces, crashed = drive_all(items)
+        traces, crashed = drive_all(items, wd=wd)
         phases["drive_" + name] = round(time.time() - t0, 1)
-        for it in crashed:
+        for it, code in crashed:
+            # an absent observation cannot be judged by TLC: the engine reports the dead call itself
             rep.verdict({"verdict": "MISMATCH", "spec": "TraceFlux", "action": "crash", "clauses": ["worker_crashed"],
-                         "tags": [], "tid": it[0]}, {"engine": "flux", "palette": it[1]["name"], "behaviour": it[2]})
+                         "tags": ["solver_" + it[1]["solver"]] + sorted({"calls_" + s["op"] for s in it[2]["steps"]}),
+                         "exitcode": code, "tid": it[0], "palette": it[1]["name"]},
+                        {"engine": "flux", "palette": it[1]["name"], "behaviour": it[2]})
         t0 = time.time()
         verdicts, cmd = validate(traces, wd, name)
         phases["validate_" + name] = round(time.time() - t0, 1)
@@ -651,10 +693,12 @@ ASSUMPTIONS = {
 def _replay(rep, wd, payload):
     r = payload["replay"]
     pal = [p for p in PALETTES if p["name"] == r["palette"]][0]
-    traces, crashed = drive_all([(1, pal, r["behaviour"], rep.prop)], nproc=1)
+    traces, crashed = drive_all([(1, pal, r["behaviour"], rep.prop)], nproc=1, wd=wd)
     if crashed:
-        rep.verdict({"verdict": "MISMATCH", "spec": "TraceFlux", "action": "crash", "clauses": ["worker_crashed"], "tags": [],
-                     "tid": 1}, {"engine": "flux", "palette": pal["name"], "behaviour": r["behaviour"]})
+        rep.verdict({"verdict": "MISMATCH", "spec": "TraceFlux", "action": "crash", "clauses": ["worker_crashed"],
+                     "tags": ["solver_" + pal["solver"]] + sorted({"calls_" + s["op"] for s in r["behaviour"]["steps"]}),
+                     "exitcode": crashed[0][1], "tid": 1, "palette": pal["name"]},
+                    {"engine": "flux", "palette": pal["name"], "behaviour": r["behaviour"]})
         return rep.finish({"traces_validated_against_impl": 0, "events_validated": 0})
     verdicts, cmd = validate(traces, wd, "replay")
     for v in verdicts:
